@@ -92,7 +92,7 @@ def spell(rng, v):
 
 def hl(rng, which, expr):
     """%hi(expr) or the parenthesis-free form"""
-    if rng.random() < 0.7 or expr.startswith('%'):
+    if rng.random() < 0.7 or expr.startswith('%') or expr.startswith('('):      # `%hi (A - 1) * 3` would read as %hi(A - 1) ...
         return '%%%s(%s)' % (which, expr)
     return '%%%s %s' % (which, expr)
 
@@ -119,7 +119,7 @@ def build_program(rng, nvals):
             body.append((rng.choice(['call FARFN', 'tail FARFN', 'call LA', 'tail LB', 'jalr x1, x5, 8', 'lw x11, 12(x5)', 'sw x11, -4(x2)', 'jal x1, LA',
                                      'beq x5, x6, 8', 'dw 0x12345678', 'li x5, 0x12345']), None))
         v = interesting_value(rng)
-        form = rng.choice(['lit', 'const', 'label', 'position', 'constexpr', 'label', 'position'])
+        form = rng.choice(['lit', 'const', 'label', 'position', 'constexpr', 'label', 'position', 'parenexpr'])
         name = 'V%d' % k
         if form == 'lit':
             e = spell(rng, v)
@@ -134,6 +134,15 @@ def build_program(rng, nvals):
             e = rng.choice(['%s + %d' % (name, a), '%d + %s' % (a, name)])
             val = ('lit', (v & M32))  # value of the expression mod 2^32 is v, whatever spelling was used
             # the spelled constant may be negative, so the sum may differ from v by 2^32: still the same 32-bit value
+        elif form == 'parenexpr':
+            # an argument with precedence-changing parentheses of its own inside the modifier's parentheses
+            a, q = rng.randrange(1, 1000), rng.choice([2, 3, 4, 8, 0x100])
+            vv = v & M32
+            body.append(('%s = %s' % (name, spell(rng, vv // q + a)), None))
+            e = rng.choice(['(%s - %d) * %d + %d' % (name, a, q, vv % q), '%d + %d * (%s - %d)' % (vv % q, q, name, a),
+                            '((%s - %d) << %d) | %d' % (name, a, q.bit_length() - 1, vv % q) if q & (q - 1) == 0 else '(%s - %d) * %d + %d' % (name, a, q, vv % q),
+                            '~(~((%s - %d) * %d) - %d)' % (name, a, q, vv % q)])
+            val = ('lit', vv)
         elif form == 'label':
             lab = rng.choice(['LA', 'LB'])
             e = lab
